@@ -670,8 +670,18 @@ func c08Events(res *engine.Result, s *ref.S35Section) {
 
 // c08CheckDecode: reference encoding -> NewSCTE35 -> getters.
 func c08CheckDecode(res *engine.Result, sec *ref.S35Section, events bool) {
+	c08CheckDecodeIn(res, sec, events, nil)
+}
+
+// c08CheckDecodeIn: with reuse != nil the section is decoded from that caller-owned buffer, which held
+// the previous section of the same case (same address, usually the same length) until a moment ago.
+func c08CheckDecodeIn(res *engine.Result, sec *ref.S35Section, events bool, reuse *[]byte) {
 	in := ref.S35Bytes(sec)
 	orig := append([]byte(nil), in...)
+	if reuse != nil {
+		in = append((*reuse)[:0], in...)
+		*reuse = in
+	}
 	var obj scte35.SCTE35
 	var err error
 	res.Evals++
@@ -703,7 +713,7 @@ type c08ValueCase struct {
 }
 
 // c08Values are boundary-dense value sets: every single-bit value, its complement within the width,
-// the all-ones prefixes, and block*stride+i strides to touch every byte lane.
+// the all-ones prefixes, every two-bit value and contiguous run of ones, and 64 fixed scattered values per block.
 func c08Values(width int, block, blocks int) []uint64 {
 	mask := uint64(1)<<uint(width) - 1
 	var out []uint64
@@ -711,6 +721,7 @@ func c08Values(width int, block, blocks int) []uint64 {
 		out = append(out, uint64(1)<<uint(i), mask&^(uint64(1)<<uint(i)), uint64(1)<<uint(i)-1, mask&^(uint64(1)<<uint(i)-1))
 		for j := 0; j < i; j++ {
 			out = append(out, uint64(1)<<uint(i)|uint64(1)<<uint(j))
+			out = append(out, (uint64(1)<<uint(i+1)-1)&^(uint64(1)<<uint(j)-1)) // the run of ones j..i
 		}
 	}
 	x := uint64(0x9E3779B97F4A7C15) * uint64(block+1)
@@ -797,9 +808,10 @@ func c08GenValues(r *engine.Run, emit func(c08ValueCase)) {
 
 func c08CheckValues(c c08ValueCase) engine.Result {
 	var res engine.Result
+	buf := make([]byte, 0, 512)
 	for _, v := range c08Values(c08ValueWidth(c.Field), c.Block, c08ValueBlocks) {
 		sec := c08SetValue(c.Field, v)
-		c08CheckDecode(&res, &sec, false)
+		c08CheckDecodeIn(&res, &sec, false, &buf) // every section of the case is decoded from the same memory
 		res.Nontrivial++
 	}
 	return res
@@ -1370,7 +1382,7 @@ func init() {
 			},
 			&engine.Enum[c08ValueCase]{
 				Name:  "decode-values",
-				Rule:  "numeric fields swept one at a time inside otherwise fixed sections: pts_adjustment, time_signal / splice_insert / splice component pts_time, break_duration, segmentation pts_offset (33 bits), segmentation_duration (40 bits), tier+cw_index (12/8 bits), event ids + unique_program_id (32/16 bits), segment/sub-segment/avail numbers + upid type (8 bits each); values per field = every single bit, its complement, every low-ones / high-ones run, every pair of bits, 64 xorshift values per block; 8 blocks per field; same oracle as decode-fields; non-trivial = every value",
+				Rule:  "numeric fields swept one at a time inside otherwise fixed sections: pts_adjustment, time_signal / splice_insert / splice component pts_time, break_duration, segmentation pts_offset (33 bits), segmentation_duration (40 bits), tier+cw_index (12/8 bits), event ids + unique_program_id (32/16 bits), segment/sub-segment/avail numbers + upid type (8 bits each); values per field = every single bit, its complement, every low-ones / high-ones run, every pair of bits, 64 xorshift values per block; 8 blocks per field; same oracle as decode-fields; non-trivial = every value; all sections of one case are decoded one after the other from the same caller-owned buffer (same address and length, new contents)",
 				Gen:   c08GenValues,
 				Check: witnessEnum(c08CheckValues, witnessSCTE),
 				Batch: 1,
